@@ -26,7 +26,8 @@ class Scenario(object):
     """benchmarks: list of names; one suite S, one executor E, experiment T (+ optional second experiment)"""
 
     def __init__(self, wd, benchmarks, invocations, iterations, crits, data_file='t.data',
-                 second_exp=None, profile=False, third_exp=None, unicode_text=False):
+                 second_exp=None, profile=False, third_exp=None, unicode_text=False,
+                 text_fields=None):
         self.wd = wd
         self.benchmarks = list(benchmarks)
         self.invocations = invocations
@@ -38,6 +39,7 @@ class Scenario(object):
         self.profile = profile
         self.serial = SERIAL_BASE
         self.session = 0
+        self.text_fields = text_fields or {}   # e.g. {'variable_values': ['a\u2028b'], 'input_sizes': ['1\x0c2']}
         self.unicode_text = unicode_text   # non-ASCII text in fields that are recorded in the JSON metadata
         self.encoding = 'utf-8'            # 'latin-1': read()/write() work on bytes (one char = one byte)
         self.fail_exes = set()         # executables (exe, exe2, exe3) whose every invocation fails
@@ -72,6 +74,8 @@ class Scenario(object):
             exps['V'] = {'suites': ['S3'], 'executions': ['E3']}
             if self.third_exp.get('data_file'):
                 exps['V']['data_file'] = self.third_exp['data_file']
+        for su in suites.values():
+            su.update({k: list(v) for k, v in self.text_fields.items()})
         return {'default_experiment': 'T', 'default_data_file': self.data_file,
                 'runs': {'invocations': self.invocations},
                 'benchmark_suites': suites, 'executors': executors, 'experiments': exps}
